@@ -38,9 +38,10 @@ def race_schedules(ctx):
     os.makedirs(ctx.casedir, exist_ok=True)
     v = os.path.join(ctx.casedir, "sched_enum_c04i.v")
     body = HDR_I
+    fix7 = "true" if os.environ.get("VERIF_C04I_FIX7") else "false"   # validation of fixes/F7.diff only
     for i, (p, put, rm) in enumerate(SCENARIOS):
-        body += "Definition S_%d := Eval vm_compute in sched_strs FUEL (init %s %s %s).\nPrint S_%d.\n" % (
-            i, p, str(put).lower(), str(rm).lower(), i)
+        body += "Definition S_%d := Eval vm_compute in sched_strs FUEL (init7 %s %s %s %s).\nPrint S_%d.\n" % (
+            i, p, str(put).lower(), str(rm).lower(), fix7, i)
     open(v, "w").write(body)
     rc, out, _ = core.run(["coqc", "-Q", core.COQ, "AV", os.path.basename(v)], cwd=ctx.casedir, timeout=900)
     if rc != 0:
@@ -77,7 +78,7 @@ def stage_i(ctx, per_scenario, suffix="", off=0):
         if p == "POldCorrupt" and per_scenario:
             k *= 2
         pick = allsch if k >= len(allsch) else rnd.sample(allsch, k)
-        chosen += [dict(prior=p, put=put, rm=rm, steps=x) for x in pick]
+        chosen += [dict(prior=p, put=put, rm=rm, fix7=bool(os.environ.get("VERIF_C04I_FIX7")), steps=x) for x in pick]
     jf = os.path.join(ctx.casedir, "sched_" + name + ".json")
     json.dump(chosen, open(jf, "w"))
     rep = dict(_replace())
@@ -90,15 +91,19 @@ def stage_i(ctx, per_scenario, suffix="", off=0):
 
 
 def run(ctx):
-    n = {"quick": 150, "thorough": 3000}[ctx.tier]
+    n = {"quick": 100, "thorough": 1500}[ctx.tier]
 
     def stages(ctx, mult, suffix, off):
         stage_h(ctx, n * mult, suffix, off)
-        stage_i(ctx, 0 if (ctx.tier == "thorough" and not suffix) else 20 * mult, suffix, off)
+        stage_i(ctx, 0 if (ctx.tier == "thorough" and not suffix) else 15 * mult, suffix, off)
     return standard(ctx, "C04", ["model/C04_run.vo", "model/C04_race_run.vo"], stages, known_bits={4: "F20", 8: "F7"},
                     rule="random histories (8-40 requests) of PUT/TOUCH/GET/trash-list/DELETE/untrash/empty-trash on 1-2 Directory volumes, "
                          "time advanced by shifting file times; distinct by hash of the case term; non-trivial = a block was trashed or an untrash was issued",
-                    assumptions=[])
+                    assumptions=["virtual clock: time passes by shifting every mtime and trash deadline backwards by whole seconds; TTL 2 h, every age/deadline comparison kept >= 5 s from its boundary",
+                                 "each step's clock value is the one the implementation read, recovered from the mtime / deadline it wrote (checked to lie inside the window measured around the request)",
+                                 "TrashItem and EmptyTrash are called directly, as the trash worker and the emptyTrash ticker do",
+                                 "interleaving level: one writable volume, Serialize off; flock(2) per inode, utimes/stat/rename/unlink by path; mtimes abstracted to {older than TTL, fresh}",
+                                 "a thread expected to be blocked in flock(2) is confirmed by a 15 ms grace period (only a missed detection, never a false alarm, can result from timing)"])
 
 
 def dev(ctx, n, extra):
